@@ -1,30 +1,30 @@
 #!/bin/bash
-# usage: tools/try_seed.sh <seed-dir> <property> [more properties...]
-# Applies <seed-dir>/patch.diff to /repo, confirms that the repository still builds and passes its own suite and
-# that the demonstration fails, runs the quick checks of the given properties, and ALWAYS restores /repo.
+# usage: tools/try_seed.sh <seed-dir (absolute)> <property> [more properties...]
+# Applies <seed-dir>/patch.diff to a SCRATCH COPY of /repo's HEAD (never to /repo itself), confirms that the copy still builds
+# and passes the repository's own suite and that the demonstration fails there, runs the quick checks of the given properties
+# against the copy (VERIF_REPO), and removes the copy.
 set -u
 seed=$1; shift
 export GOFLAGS=-mod=mod GOPROXY=off GOSUMDB=off GOTOOLCHAIN=local
-cd /repo || exit 2
-if [ -n "$(git status --porcelain)" ]; then echo "/repo is not clean"; exit 2; fi
-restore() { cd /repo && git checkout -- . && rm -f /repo/zz_seed_demo_test.go; }
-trap restore EXIT
+scratch=$(mktemp -d /tmp/seedtry-XXXXXX)
+cleanup() { git -C /repo worktree remove --force "$scratch" 2>/dev/null; rm -rf "$scratch"; git -C /repo worktree prune; }
+trap cleanup EXIT
+rmdir "$scratch"
+git -C /repo worktree add -q --detach "$scratch" HEAD || exit 2
+cd "$scratch" || exit 2
 git apply "$seed/patch.diff" || { echo "patch does not apply"; exit 2; }
 echo "== build + suite with the change"
 go build ./... && go test -vet=off -count=1 ./... 2>&1 | tail -3
 echo "== demo with the change (expected: FAIL)"
-cp "$seed/demo_test.go" /repo/zz_seed_demo_test.go
+cp "$seed/demo_test.go" "$scratch/zz_seed_demo_test.go"
 if grep -q "race" "$seed/meta.json" 2>/dev/null && [ "${1:-}" = "C12" ]; then RACE=-race; else RACE=; fi
 timeout 300 go test $RACE -vet=off -count=1 -run TestSeedDemo . 2>&1 | tail -4
-rm -f /repo/zz_seed_demo_test.go
+rm -f "$scratch/zz_seed_demo_test.go"
 for p in "$@"; do
-  echo "== ./check $p"
-  (cd /verif && timeout 1500 ./check $p 2>&1 | grep -E "VIOLATION|KNOWN-FINDING|held on everything|framework error|Traceback" | head -6)
+  echo "== ./check $p (against the scratch copy)"
+  (cd /verif && VERIF_REPO="$scratch" timeout 1500 ./check $p 2>&1 | grep --line-buffered -E "VIOLATION|KNOWN-FINDING|held on everything|framework error|Traceback" | head -6)
 done
-restore
-trap - EXIT
-echo "== demo on the restored tree (expected: ok)"
-cp "$seed/demo_test.go" /repo/zz_seed_demo_test.go
+echo "== demo on the unchanged source (expected: ok)"
+git -C "$scratch" checkout -q -- . 
+cp "$seed/demo_test.go" "$scratch/zz_seed_demo_test.go"
 go test $RACE -vet=off -count=1 -run TestSeedDemo . 2>&1 | tail -2
-rm -f /repo/zz_seed_demo_test.go
-git -C /repo status --short | head -3
